@@ -4,8 +4,8 @@
 package tooldriver
 
 import (
-	"bytes"
 	"bufio"
+	"bytes"
 	"crypto/sha256"
 	"encoding/hex"
 	"encoding/json"
@@ -30,19 +30,19 @@ import (
 
 // Case is one simulated invocation (possibly repeated in the same process).
 type Case struct {
-	ID      string            `json:"id"`
-	Args    []string          `json:"args"`
-	Stdin   []byte            `json:"stdin"`
-	Files   map[string][]byte `json:"files,omitempty"`
-	Dirs    []string          `json:"dirs,omitempty"`
+	ID    string            `json:"id"`
+	Args  []string          `json:"args"`
+	Stdin []byte            `json:"stdin"`
+	Files map[string][]byte `json:"files,omitempty"`
+	Dirs  []string          `json:"dirs,omitempty"`
 	// GrammarFile names the entry of Files that holds the grammar (when it is
 	// delivered by file).
-	GrammarFile string `json:"grammar_file,omitempty"`
-	Faults  simos.Faults      `json:"faults"`
-	MapMode int               `json:"map_mode"`
-	MapSeed uint64            `json:"map_seed"`
-	Repeat  int               `json:"repeat"`
-	Full    bool              `json:"full,omitempty"`
+	GrammarFile string       `json:"grammar_file,omitempty"`
+	Faults      simos.Faults `json:"faults"`
+	MapMode     int          `json:"map_mode"`
+	MapSeed     uint64       `json:"map_seed"`
+	Repeat      int          `json:"repeat"`
+	Full        bool         `json:"full,omitempty"`
 	// Mode "rebuild": instead of main(), parse the grammar once and build the
 	// parser twice from the same grammar value (library use of the builder).
 	Mode string `json:"mode,omitempty"`
